@@ -43,7 +43,10 @@ GENERIC = (
     "first-provision minimums on re-registration; a fast path comparing truncated ratios in the LP share; idle balances paid out by "
     "the first provision; the LP token's display name echoed into attributes; a refund of unused attached coins by the router; "
     "de-duplication of listing pages by a rendered asset set; dropping the hops before a return to the entry asset; a guard on "
-    "the gap between decimals that skips the pair's update; funds checks through a Decimal ratio"
+    "the gap between decimals that skips the pair's update; funds checks through a Decimal ratio; a K-must-not-shrink guard paying "
+    "one unit less than reported; equal reserves used instead of the LP supply; the reported spread replaced by the belief "
+    "shortfall; a reverse-simulation guard at the top of the feasible range; a relay exception for coin-carrying hooks; "
+    "messages dropped when a refund Response replaces the built one; zero-fraction shortcuts in the decimal parser"
 )
 
 
